@@ -56,7 +56,44 @@ func genC05(g G) *Scenario {
 			b.DeclaredSize = &sz
 			blob = w.Add(b)
 		}
-		top := AddBomb(w, c.d, c.b, blob, "")
+		// direct entries (file, symlink, submodule) that sort after the
+		// subtree entries, at the levels where the counters cross their capacity
+		extras := map[int][]TreeEntry{}
+		if g.Chance(2, 3, "bombextras") {
+			ne := g.Int(1, 4, "nextras")
+			for i := 0; i < ne; i++ {
+				lvl := c.d - 1 - g.Int(0, min(3, c.d-1), "extralevel")
+				var e TreeEntry
+				switch g.Pick(3, "extrakind") {
+				case 0:
+					e = TreeEntry{Mode: 0o100644, Name: fmt.Sprintf("zfile%d", i), OID: blob.ID}
+				case 1:
+					e = TreeEntry{Mode: 0o120000, Name: fmt.Sprintf("zlink%d", i), OID: small.ID}
+				default:
+					e = TreeEntry{Mode: 0o160000, Name: fmt.Sprintf("zsub%d", i), OID: fakeOID(fmt.Sprint("bombsub", i))}
+				}
+				extras[lvl] = append(extras[lvl], e)
+			}
+		}
+		levels := AddBombLevels(w, c.d, c.b, blob, "", extras)
+		top := levels[len(levels)-1]
+		// "taps": other roots that point at lower levels, so that the plan's
+		// order of pending roots can deliver a subtree before the tree that
+		// contains it (the subtree's size is then known when the parent is read)
+		if g.Chance(2, 3, "bombtaps") {
+			nt := g.Int(1, 3, "ntaps")
+			for i := 0; i < nt; i++ {
+				lvl := len(levels) - 2 - g.Int(0, min(3, len(levels)-2), "taplevel")
+				if lvl < 0 {
+					continue
+				}
+				if g.Bool("tapcommit") {
+					addCommit(levels[lvl].ID, fmt.Sprintf("tap%d", i))
+				} else if !refConflicts(refSet(w), fmt.Sprintf("refs/tags/tap%d", i)) {
+					w.Refs = append(w.Refs, Ref{Name: fmt.Sprintf("refs/tags/tap%d", i), OID: levels[lvl].ID})
+				}
+			}
+		}
 		addCommit(top.ID, "bomb")
 		if g.Bool("secondbomb") {
 			top2 := AddBomb(w, g.Int(1, 5, "d2"), g.Int(1, 5, "b2"), small, "x")
